@@ -79,7 +79,7 @@ func stressRun(t kit.Fataler, prop string, cfg stressCfg) stressResult {
 	}
 	hasPartialRDB := false
 	for _, k := range cfg.Reloads {
-		if k == "partial" && b != kit.CDB {
+		if (k == "partial" || k == "partial-timeout") && b != kit.CDB {
 			hasPartialRDB = true
 		}
 	}
@@ -162,6 +162,17 @@ func stressRun(t kit.Fataler, prop string, cfg stressCfg) stressResult {
 			default:
 			}
 			kind := cfg.Reloads[n%len(cfg.Reloads)]
+			if kind == "partial-timeout" {
+				// a burst of catch-ups that overrun their (1 ns) timeout, so that catch-ups
+				// overlap; whatever they return is accepted - afterwards a normal partial
+				// reload must still succeed
+				h.VerifSetReloadTimeout(time.Nanosecond)
+				for i := 0; i < 3; i++ {
+					_ = h.Reload(*dnsserver.NewPartialReloadSignal())
+				}
+				h.VerifSetReloadTimeout(30 * time.Second)
+				kind = "partial"
+			}
 			if kind == "partial" {
 				atomic.StoreInt64(&attempted, int64(w.nextGen+1))
 				if err := w.stage(); err != nil {
